@@ -570,8 +570,9 @@ def _run(pid, tier, cf, rep, tf, rng, timing, instances, pool, replay_file, t0):
         observations=dict(kinds),
         drift=dict(drift),
         drift_by_case=dict(sorted(drift_by_case.items())),
-        drift_events_adjudicated=len([1 for oi in chosen if oi in set(drifted)]),
+        drift_events_adjudicated=len(drifted),
         judged_events=len(events),
+        judged_observations=len(chosen),
         suspects_value_changing_write_logs=suspects_n,
         positive_control_rejections=dict(control),
         gate_stalls=sum(s.get("stalls", 0) for _i, _t, s in observations),
@@ -614,14 +615,20 @@ def _judge(observations, recs, refs, rep, tf, cf, rng, timing):
             drift["path"] += 1
             drift_by_case[recs[i]["case"] + ":path"] += 1
     rng.shuffle(same)
-    chosen = drifted[:6000] + same[:cf["judged_sample"]]
+    chosen = drifted + same[:cf["judged_sample"]]       # EVERY drifted observation is adjudicated
+    by_key = {}                                          # identical observations share one event
     for oi in chosen:
         i, tag, s = observations[oi]
         ref = refs[i]
         n = len(ref["alone"])
         alone = [ref["alone"][j % n] for j in range(len(s["got"]))]
+        key = (i, tuple(s["got"]), s["tree1"], s.get("writes", 0) > 0, s.get("n_nonpreserving", 0) > 0)
+        if key in by_key:
+            ev_obs[by_key[key]].append(oi)
+            continue
         eid = len(events) + 1
-        ev_obs[eid] = oi
+        by_key[key] = eid
+        ev_obs[eid] = [oi]
 
         def outs(xs):
             return "<<" + ", ".join('[k |-> "%s", r |-> %d]' % (k.replace('"', "'"), iid(("r", i, r)))
@@ -635,8 +642,8 @@ def _judge(observations, recs, refs, rep, tf, cf, rng, timing):
     timing["adjudicate"] = round(time.time() - t1, 2)
 
     control = Counter()
-    for eid, clause in sorted(rejected.items()):
-        i, tag, s = observations[ev_obs[eid]]
+    for eid, oi, clause in sorted((eid, oi, clause) for eid, clause in rejected.items() for oi in ev_obs[eid]):
+        i, tag, s = observations[oi]
         r = recs[i]
         if r["case"] == "control":
             control[tag[0]] += 1         # the positive control: must be rejected, never reported
